@@ -59,7 +59,7 @@ def required(tier):
         "mon": ["backend:svd", "backend:randomized_svd", "history:prior_fit"],
         "cover": [f"kind:{k}" for k in KINDS]
         + ["use_pca:True", "use_pca:False", "npca:int", "npca:all", "npca:float", "eig:complex_pair", "eig:neg_real", "eig:pos_real"]
-        + ["backend:svd", "backend:randomized_svd", "center:False", "standardize:True", "coslat:True", "weights:True", "osc_pairs:1", "osc_pairs:2", "osc_pairs:3", "history:refit", "history:fresh"],
+        + ["backend:svd", "backend:randomized_svd", "center:False", "standardize:True", "coslat:True", "weights:True", "osc_pairs:1", "osc_pairs:2", "osc_pairs:3", "history:refit", "history:fresh", "time_labels:decreasing", "time_labels:unordered", "cond2:gt1e10"],
     }
 
 
@@ -109,6 +109,8 @@ def _draw(rng, kind=None, use_pca=None, npca_type=None):
         c["n"] = d + 1 + int(u < 0.08)
     # spread of the latent amplitudes: drives cond(X0)^2 (exercises the tolerance model)
     c["spread"] = float(rng.choice([0.3, 0.3, 1.0, 2.0]))
+    if kind == "osc" and not use_pca and d >= 4 and rng.random() < 0.35:
+        c["spread"] = float(rng.uniform(5.2, 5.8))  # mixed units: cond(X0)^2 around 1e10..1e12
     c.update(
         standardize=bool(rng.random() < 0.25),
         coslat=bool(rng.random() < 0.25),
@@ -216,7 +218,13 @@ def build(case):
         fdims = ("lat", "lon") if use_lat else ("x", "y")
     else:
         fdims = ("lat",) if use_lat else ("x",)
-    X = xu.make_da(M, fshape, fdims, sample_dim="time")
+    # the rows are the time order; the labels need not increase (e.g. an age axis "years before present")
+    tlab = None
+    if case["dseed"] % 5 == 1:
+        tlab = (np.arange(n)[::-1] * 3 + 7).astype(float)
+    elif case["dseed"] % 5 == 2:
+        tlab = np.random.default_rng(case["dseed"]).permutation(n) * 2 + 1
+    X = xu.make_da(M, fshape, fdims, sample_dim="time", sample_coords=tlab)
     w_cos = None
     if case["coslat"]:
         wl = oracle.coslat_weights(X.coords["lat"].values)
@@ -269,6 +277,7 @@ def run_case(case, obs):
     if kind == "osc":
         obs.cell(f"osc_pairs:{case['pairs']}")
     b = build(case)
+    obs.cell("time_labels:" + {1: "decreasing", 2: "unordered"}.get(case["dseed"] % 5, "increasing"))
     n, p, d = case["n"], case["p"], case["d"]
     Mp = oracle.preprocess(b["M"], case["center"], case["standardize"], b["w_cos"], b["w_user"])
 
@@ -380,7 +389,13 @@ def run_case(case, obs):
     Y = Mp @ Vo
     A, cond2, rank = feedback(Y)
     obs.note("cond2", cond2)
-    if rank < k or not np.isfinite(cond2) or cond2 > 1e10:
+    # noisy data: beyond cond^2 = 1e10 the feedback matrix is not determined by the data in double precision.  A
+    # noise-free oscillator determines it exactly; only the computation loses eps*cond^2, which the tolerance
+    # model below follows -- kept up to 1e12 (mixed physical units, amplitudes 1e5..1e6 apart)
+    cond_limit = 1e12 if kind == "osc" else 1e10
+    if cond2 > 1e10:
+        obs.cell("cond2:gt1e10")
+    if rank < k or not np.isfinite(cond2) or cond2 > cond_limit:
         obs.ambiguous("lag-0 covariance numerically singular: feedback matrix not determined")
     tol = base_tol * max(1.0, cond2 / 1e4)
     obs.nontrivial = bool(k >= 2)
